@@ -233,6 +233,7 @@ private:
     void escape_string(const CharT* s,
                        std::size_t length,
                        CharT quote_char, CharT quote_escape_char,
+                       bool quoted,
                        string_type& sink)
     {
         const CharT* begin = s;
@@ -240,10 +241,10 @@ private:
         for (const CharT* it = begin; it != end; ++it)
         {
             CharT c = *it;
-            if (c == quote_char)
+            if (c == quote_char || (quoted && c == quote_escape_char))
             {
                 sink.push_back(quote_escape_char); 
-                sink.push_back(quote_char);
+                sink.push_back(c);
             }
             else
             {
@@ -1321,7 +1322,7 @@ private:
             quote = true;
             str.push_back(quote_char_);
         }
-        escape_string(s, length, quote_char_, quote_escape_char_, str);
+        escape_string(s, length, quote_char_, quote_escape_char_, quote, str);
         if (quote)
         {
             str.push_back(quote_char_);
